@@ -86,9 +86,13 @@ func init() {
 	// ---- C01: every run terminates with one output or an error ----
 	c01 := []*ir.Profile{
 		{Name: "c01-mixed", MinSteps: 1, MaxSteps: 8, Durs: someDurs, Modes: allBad, PBad: 45, PDeployFail: 20, PDisabled: 20, PWaitFor: 30, MaxOutputs: 3, PErrPathRef: 20},
-		{Name: "c01-fanin", FanIn: 24, Durs: []int64{5}, EqualDur: true, Modes: []string{"err", "crash"}, PBad: 100},
-		{Name: "c01-fanin-mixed", FanIn: 30, Durs: []int64{0, 5}, Modes: []string{"err", "crash", "panic"}, PBad: 70, PDeployFail: 20},
+		{Name: "c01-fanin", MaxSteps: 24, FanIn: 24, Durs: []int64{5}, EqualDur: true, Modes: []string{"err", "crash"}, PBad: 100},
+		{Name: "c01-fanin-mixed", MaxSteps: 30, FanIn: 30, Durs: []int64{0, 5}, Modes: []string{"err", "crash", "panic"}, PBad: 70, PDeployFail: 20},
 		{Name: "c01-island", MinSteps: 1, MaxSteps: 3, Durs: []int64{0, 5, 50}, Modes: []string{"err", "crash"}, PBad: 60, PDeployFail: 20, HangIsland: true, MaxOutputs: 2},
+		{Name: "c01-errpath-only", MinSteps: 1, MaxSteps: 3, Durs: []int64{0, 5, 50}, Modes: []string{"err", "crash"}, PBad: 30, PDeployFail: 10, PDisabled: 20, ErrOutput: true, OnlyErrOutputs: true, MaxOutputs: 2},
+		{Name: "c01-errpath-island", MinSteps: 1, MaxSteps: 2, Durs: []int64{0, 5}, Modes: []string{"err"}, PBad: 20, ErrOutput: true, OnlyErrOutputs: true, HangIsland: true},
+		{Name: "c01-neverfail-island", MinSteps: 1, MaxSteps: 2, Durs: []int64{0, 5}, ErrOutput: true, OnlyErrOutputs: true, HangIsland: true, StructRefs: true},
+		{Name: "c01-neverfail", MinSteps: 1, MaxSteps: 3, Durs: []int64{0, 5, 50}, ErrOutput: true, OnlyErrOutputs: true, StructRefs: true, MaxOutputs: 2},
 		{Name: "c01-stop", MinSteps: 1, MaxSteps: 3, Durs: []int64{0, 5, 50}, StopIf: true},
 	}
 	register(&PropDef{ID: "C01",
@@ -98,8 +102,8 @@ func init() {
 
 	// ---- C02: steps start only after their dependencies, with the data those produced ----
 	c02 := []*ir.Profile{
-		{Name: "c02-chains", MinSteps: 2, MaxSteps: 7, Durs: someDurs, PWaitFor: 60, PDeploySlow: 50, DeepExpr: true, PNoSignal: 20},
-		{Name: "c02-mixed", MinSteps: 2, MaxSteps: 6, Durs: someDurs, Modes: []string{"err", "alt", "crash"}, PBad: 25, PErrPathRef: 25, PWaitFor: 50, PDeploySlow: 40, PDisabled: 15, MaxOutputs: 2, DeepExpr: true},
+		{Name: "c02-chains", PDeployExpr: 40, MinSteps: 2, MaxSteps: 7, Durs: someDurs, PWaitFor: 60, PDeploySlow: 50, DeepExpr: true, PNoSignal: 20},
+		{Name: "c02-mixed", PDeployExpr: 30, MinSteps: 2, MaxSteps: 6, Durs: someDurs, Modes: []string{"err", "alt", "crash"}, PBad: 25, PErrPathRef: 25, PWaitFor: 50, PDeploySlow: 40, PDisabled: 15, MaxOutputs: 2, DeepExpr: true},
 	}
 	register(&PropDef{ID: "C02",
 		Gen:   func(t *rapid.T) *Case { return genS1(t, "C02", c02, true) },
